@@ -357,6 +357,21 @@ Proof.
     rewrite ?global_filter; lia.
 Qed.
 
+(* a Logger attached for a set of handler kinds (WithMiddlewareFor mask) sees a request served by the
+   router exactly when the kind of handler that served it is in the set — in the code and in the
+   specification *)
+Lemma scoped_logger_proof : forall k mask,
+  let n := if existsb (hscope_eqb (scope_of k)) mask then 1%nat else 0%nat in
+  loggers_run k DServe [AWithMiddlewareFor mask] 0 0 = n
+  /\ expected_records k DServe [AWithMiddlewareFor mask] 0 0 = n.
+Proof.
+  intros k mask n.
+  assert (H : expected_records k DServe [AWithMiddlewareFor mask] 0 0 = n).
+  { subst n. unfold expected_records. cbv zeta. cbn [filter attached_for].
+    destruct (existsb (hscope_eqb (scope_of k)) mask); destruct k; reflexivity. }
+  split; [rewrite chain_meets_spec_proof by (left; reflexivity)|]; exact H.
+Qed.
+
 (* ---------- non-vacuity ---------- *)
 Definition ex_env : env :=
   {| e_kind := KRoute; e_glob := Some (ResErr (ELeaf 7%N)); e_route := RSet (ResErr (EWrap (EJoin [ELeaf 3%N; ELeaf 0%N])));
